@@ -159,7 +159,8 @@ func c02Specs(tier string) []world.Spec {
 
 func c02Opts(tier string, spec world.Spec) hOpts {
 	o := hOpts{Spec: spec, Advance: true, MaxDev: 1, BadIdP: c02Evil(), OnlyLive: false, MaxSessions: 3,
-		GoodIdP: []world.Answer{world.Honest, {Name: "honest-aud-array-rsa", AudArray: true, RSA: true}, {Name: "honest-refresh-omits-id", NoIDToken: true}}}
+		GoodIdP: []world.Answer{world.Honest, {Name: "honest-aud-array-rsa", AudArray: true, RSA: true}, {Name: "honest-refresh-omits-id", NoIDToken: true},
+			{Name: "honest-no-expires-in", NoExpiresIn: true}, {Name: "honest-access-token-of-3s", AccessLife: 3}}}
 	if tier == "thorough" {
 		o.MaxDev = 2
 		o.MaxSessions = 3
@@ -168,7 +169,7 @@ func c02Opts(tier string, spec world.Spec) hOpts {
 }
 
 func c02Run(run *ev.Run) {
-	run.Rule = "BFS over login/refresh histories in which the provider answers the token request of a check either honestly (3 shapes) or with one element of a 37-element adversarial ID-token grammar (deviation; <=1 per history quick, <=2 thorough), for several header/preamble configurations; every SetTokenResponse is re-validated by an independent stdlib verifier and every OK's upstream headers are compared with the bound tokens; class = (path, answer, verdict)"
+	run.Rule = "BFS over login/refresh histories in which the provider answers the token request of a check either honestly (5 shapes: plain, aud array + RSA, refresh without id_token, no expires_in, access token of 3 s) or with one element of a 37-element adversarial ID-token grammar (deviation; <=1 per history quick, <=2 thorough), for several header/preamble configurations; every SetTokenResponse is re-validated by an independent stdlib verifier and every OK's upstream headers are compared with the bound tokens; class = (path, answer, verdict)"
 	run.Assumptions = []string{
 		"grammar elements are unambiguously invalid; validly signed tokens in non-compact serialisation and surrounding whitespace are not in the grammar",
 		"nonce elements are deviations on the login path only (statement: nonce 'at login'); on refresh they are expected to be tolerated and are still checked for signature and audience",
